@@ -209,7 +209,8 @@ def structure_obls(E, alignment, soft, rz):
     return obls, (tuples if wellformed else None)
 
 
-HARMLESS_SOLVER_OPTIONS = {"verbose"}
+# cvxpy solve() keywords that do not change what "optimal" means (logging, caching of the canonicalisation, re-use of a previous point)
+HARMLESS_SOLVER_OPTIONS = {"verbose", "warm_start", "ignore_dpp", "enforce_dpp", "requires_grad", "gp", "qcp", "canon_backend"}
 
 
 def solver_option_obls(problems, rz, prefix=""):
